@@ -28,7 +28,19 @@ def toy_text(text: str, sch) -> str:
         if len(lin) == 1:
             return m.group(0)
         return '(' + ' union '.join(f'(DETACHED T{x})' for x in lin) + ')'
-    return re.sub(r'\(DETACHED T(\d+)\)', rep, text)
+    text = re.sub(r'\(DETACHED T(\d+)\)', rep, text)
+    return text
+
+
+def bind_params(text: str, params) -> str:
+    """the toy model has no query parameters: `<int64>$pI` / `<optional int64>$pI` is replaced by the argument
+    it is bound to (`<int64>{}` when an optional parameter is not given)"""
+    import re
+
+    def rep(m):
+        v = params[int(m.group(2))] if int(m.group(2)) < len(params) else None
+        return '<int64>{}' if v is None else str(v)
+    return re.sub(r'<(optional )?int64>\$p(\d+)', rep, text)
 
 
 def sdl_of(sch) -> str:
@@ -106,6 +118,16 @@ class TypedGen:
             c.append((('empty',), '<int64>{}'))
             ns = tuple(r.randint(0, 3) for _ in range(r.randint(2, 3)))
             c.append((('cset', ns), '{' + ', '.join(map(str, ns)) + '}'))
+            ps = self.sch.get('params', [])
+            if ps:
+                ptx = lambda i: ('<int64>' if ps[i] else '<optional int64>') + f'$p{i}'      # noqa: E731
+                i = r.randrange(len(ps))
+                c.append((('param', i), '(' + ptx(i) + ')'))
+                # a set literal of constants and parameters: the front-end folds it into a ConstantSet
+                es = tuple(('p', r.randrange(len(ps))) if r.random() < 0.6 else r.randint(0, 3)
+                           for _ in range(r.randint(2, 3)))
+                c.append((('cset', es), '{' + ', '.join(ptx(e[1]) if isinstance(e, tuple) else str(e)
+                                                         for e in es) + '}'))
         elif ty == BOOL:
             # an empty bool is written as a comparison with an empty operand (the toy model has no bool cast)
             c += [(('lit', 1), 'true'), (('lit', 0), 'false'),
